@@ -931,6 +931,14 @@ class Translator:
             negx = "(bvneg %s)" % x if e.mode == "bv" else "(- %s)" % x
             p = "(= %s %s)" % (x, e.int_const(ty, lo)) if f == "abs" else "false"
             return V(ty, ite(neg, negx, x)), p
+        m = re.fullmatch(r"<(?:chrono::)?(NaiveDate|NaiveTime|NaiveDateTime|std::string::String|String) as (?:Partial)?Ord>::(min|max|gt|lt|ge|le)", c)
+        if m and e.mode == "math":
+            x, y = scal(0), scal(1)
+            f = m.group(2)
+            if f in ("min", "max"):
+                le = "(<= %s %s)" % (x.t, y.t)
+                return V("i64", ite(le, x.t, y.t) if f == "min" else ite(le, y.t, x.t)), "false"
+            return V("bool", "(%s %s %s)" % ({"gt": ">", "lt": "<", "ge": ">=", "le": "<="}[f], x.t, y.t)), "false"
         m = re.fullmatch(r"(?:<(i\d+|u\d+|isize|usize) as Ord>::|std::cmp::|core::cmp::)(min|max)", c)
         if m:
             x, y = scal(0), scal(1)
@@ -1305,6 +1313,9 @@ class _Disc:
 # --------------------------------------------------------------------------------------- convenience
 
 
+ORD_TYPES = {"NaiveDate", "NaiveTime", "NaiveDateTime", "chrono::NaiveDate", "chrono::NaiveTime", "chrono::NaiveDateTime", "std::string::String", "String"}
+
+
 def kernel(fns, name, mode="bv", arg_names=None):
     """Translate closure/function `name` with fresh symbolic scalar arguments.
     -> dict(decls, args [(name, ty)], ret (value), panic, enc, callees)"""
@@ -1323,6 +1334,13 @@ def kernel(fns, name, mode="bv", arg_names=None):
             sym = (arg_names[len(syms)] if arg_names and len(syms) < len(arg_names) else "a%d" % len(syms))
             syms.append((sym, t0))
             args.append(V(t0, sym))
+            continue
+        if t0 in ORD_TYPES and mode == "math":
+            # a totally ordered opaque type (dates, times, strings): its values are read as points of an integer line; only
+            # comparisons / min / max are modelled (ORD callees below), anything else on such a value is not translatable
+            sym = (arg_names[len(syms)] if arg_names and len(syms) < len(arg_names) else "a%d" % len(syms))
+            syms.append((sym, "i64"))
+            args.append(V("i64", sym))
             continue
         m = re.fullmatch(r"\((.*)\)", t0)
         if m:  # tuple of scalars
